@@ -180,7 +180,9 @@ class Spinner:
         self._interrupted = False
 
     def _cancel_timeout(self):
-        if self._timeout_call:
+        # (The function being run may have cancelled it already: code that
+        # cancels every delayed call pending in the reactor.)
+        if self._timeout_call and self._timeout_call.active():
             self._timeout_call.cancel()
 
     def _get_result(self):
